@@ -39,6 +39,8 @@ var targets = []string{
 	"TokenCache.Set", "TokenCache.Get", "TokenCache.Delete",
 	"discoverProviderMetadata",
 	"MetadataCache.isCacheValid", "MetadataCache.Cleanup", "MetadataCache.GetMetadata",
+	"SessionData.expireAccessTokenChunks", "SessionData.expireRefreshTokenChunks",
+	"SessionData.SetAccessToken", "SessionData.GetAccessToken", "SessionData.SetRefreshToken", "SessionData.GetRefreshToken",
 }
 
 // functions whose effects are on the outside world and the clock (discovery): `time.Now()`, `time.Sleep` and the HTTP fetch are
@@ -46,7 +48,8 @@ var targets = []string{
 var clocked = map[string]bool{"discoverProviderMetadata": true, "MetadataCache.GetMetadata": true}
 
 // methods of *MetadataCache that assign its fields: they take the struct and return the new one next to their result
-var recvMutMethods = map[string]bool{"MetadataCache.GetMetadata": true, "MetadataCache.Cleanup": true}
+var recvMutMethods = map[string]bool{"MetadataCache.GetMetadata": true, "MetadataCache.Cleanup": true,
+	"SessionData.expireAccessTokenChunks": true, "SessionData.expireRefreshTokenChunks": true, "SessionData.SetAccessToken": true, "SessionData.SetRefreshToken": true}
 
 // calls that read or change the state shared between requests (token cache, revocation list, limiter): the translated function
 // takes that state as its last argument `w` and returns it next to its result; the operations are the fields of `Go.VOps`
@@ -94,7 +97,8 @@ var externalNoArgs = map[string]string{"t.jwkCache.GetJWKS": "getJWKS"}
 var sessGetters = map[string]string{"GetAuthenticated": "bool", "GetAccessToken": "str", "GetRefreshToken": "str", "GetEmail": "str"}
 
 // package-level variables / constants translated (name -> Lean type)
-var globals = map[string]string{"ClockSkewToleranceFuture": "dur", "ClockSkewTolerancePast": "dur", "ClockSkewTolerance": "dur", "defaultBlacklistDuration": "dur"}
+var globals = map[string]string{"ClockSkewToleranceFuture": "dur", "ClockSkewTolerancePast": "dur", "ClockSkewTolerance": "dur", "defaultBlacklistDuration": "dur",
+	"maxCookieSize": "int", "accessTokenCookie": "str", "refreshTokenCookie": "str"}
 
 type fn struct {
 	key        string
@@ -115,6 +119,8 @@ var (
 	byName = map[string]*fn{} // bare function / method name -> fn (translated ones only)
 	gdecl  = map[string]ast.Expr{}
 )
+
+var want = map[string]bool{}
 
 var leanKeywords = map[string]bool{"exists": true, "from": true, "at": true, "end": true, "then": true, "do": true, "let": true, "have": true,
 	"fun": true, "match": true, "with": true, "in": true, "instance": true, "structure": true, "class": true, "theorem": true, "def": true,
@@ -185,6 +191,14 @@ func leanType(t string) string {
 		return "(Option Go.Meta)"
 	case "mcache":
 		return "Go.MetaCache"
+	case "sdata":
+		return "Go.SessData"
+	case "gsessp":
+		return "Go.SessPtr"
+	case "imap":
+		return "(List (Int × Go.SessPtr))"
+	case "rwp":
+		return "Bool"
 	case "httpc":
 		return "Go.HTTPClient"
 	case "logger":
@@ -236,6 +250,9 @@ func goType(e ast.Expr) string {
 		if s, ok := t.X.(*ast.SelectorExpr); ok && src(s) == "http.Request" {
 			return "req"
 		}
+		if s, ok := t.X.(*ast.SelectorExpr); ok && src(s) == "sessions.Session" {
+			return "gsessp"
+		}
 		if s, ok := t.X.(*ast.SelectorExpr); ok && src(s) == "http.Client" {
 			return "httpc"
 		}
@@ -272,8 +289,13 @@ func goType(e ast.Expr) string {
 			return "time"
 		case "time.Duration":
 			return "dur"
+		case "http.ResponseWriter":
+			return "rwp"
 		}
 	case *ast.MapType:
+		if src(t) == "map[int]*sessions.Session" {
+			return "imap"
+		}
 		k, v := goType(t.Key), ""
 		if _, ok := t.Value.(*ast.StructType); ok {
 			v = "struct"
@@ -453,6 +475,8 @@ func (c *ctx) expr(e ast.Expr) (string, string) {
 		m, mt := c.expr(x.X)
 		k, _ := c.expr(x.Index)
 		switch mt {
+		case "gvals":
+			return "(Go.sessVal " + c.recv + " " + m + " " + k + ")", "any"
 		case "obj":
 			return "(Go.mapGet " + m + " " + k + ")", "any"
 		case "boolmap":
@@ -532,6 +556,12 @@ func (c *ctx) binary(x *ast.BinaryExpr) (string, string) {
 			}
 		}
 		s, t := c.expr(x.X)
+		if t == "reqp" || t == "rwp" {
+			if x.Op == token.NEQ {
+				return s, "bool"
+			}
+			return "(!" + s + ")", "bool"
+		}
 		if t == "error" || t == "jwkp" || t == "elemp" || t == "metap" {
 			if x.Op == token.NEQ {
 				return s + ".isSome", "bool"
@@ -618,6 +648,16 @@ func (c *ctx) selector(x *ast.SelectorExpr) (string, string) {
 		return r + ".metadata", "metap"
 	case "mcache.expiresAt":
 		return r + ".expiresAt", "time"
+	case "sdata.mainSession", "sdata.accessSession", "sdata.refreshSession":
+		return r + "." + x.Sel.Name, "gsessp"
+	case "sdata.accessTokenChunks", "sdata.refreshTokenChunks":
+		return r + "." + x.Sel.Name, "imap"
+	case "sdata.request":
+		return r + ".hasRequest", "reqp"
+	case "gsessp.IsNew":
+		return "(Go.sessIsNew " + c.recv + " " + r + ")", "bool"
+	case "gsessp.Values":
+		return r, "gvals"
 	}
 	fail(x, "unsupported field %s of a %s", x.Sel.Name, t)
 	return "", ""
@@ -666,7 +706,7 @@ func (c *ctx) call(x *ast.CallExpr) (string, string) {
 	case "len":
 		a, t := c.expr(x.Args[0])
 		switch t {
-		case "str", "strs", "anys", "set", "obj", "boolmap", "cmap", "emap":
+		case "str", "strs", "anys", "set", "obj", "boolmap", "cmap", "emap", "imap":
 			return "(" + a + ".length : Int)", "int"
 		}
 		fail(x, "len of a %s", t)
@@ -713,12 +753,47 @@ func (c *ctx) call(x *ast.CallExpr) (string, string) {
 	case "strings.Contains":
 		as, _ := c.args(x)
 		return "(Go.contains " + as[0] + " " + as[1] + ")", "bool"
+	case "":
+	}
+	if sel, ok := x.Fun.(*ast.SelectorExpr); ok && sel.Sel.Name == "Save" && len(x.Args) == 2 {
+		if px, pt, ok := c.tryExpr(sel.X); ok && pt == "gsessp" && c.f.recvMut {
+			c.fresh++
+			e := fmt.Sprintf("saveErr_%d", c.fresh)
+			c.pre = append(c.pre, fmt.Sprintf("let (%s, %s) := Go.sessSave %s %s\n", e, c.recv, c.recv, px))
+			return e, "error"
+		}
+	}
+	switch fun {
+	case "compressToken", "decompressToken":
+		if _, rt, _ := c.lookup(c.recv); rt != "sdata" {
+			fail(x, "%s outside a method of the session data", fun)
+		}
+		a, _ := c.expr(x.Args[0])
+		return "(" + c.recv + "." + strings.TrimSuffix(fun, "Token") + " " + a + ")", "str"
+	case "strings.Join":
+		as, ts := c.args(x)
+		if ts[0] != "strs" {
+			fail(x, "Join of a %s", ts[0])
+		}
+		return "(Go.strsJoin " + as[0] + " " + as[1] + ")", "str"
+	case "make":
+		if goType(x.Args[0]) == "imap" && len(x.Args) == 1 {
+			return "([] : List (Int × Go.SessPtr))", "imap"
+		}
+		fail(x, "make of %s", src(x.Args[0]))
 	case "fmt.Sprintf":
 		l, ok := x.Args[0].(*ast.BasicLit)
 		if !ok || l.Kind != token.STRING {
 			fail(x, "format that is not a literal")
 		}
 		f, _ := strconv.Unquote(l.Value)
+		if f == "%s_%d" && len(x.Args) == 3 {
+			as, ts := c.args(x)
+			if ts[1] != "str" || ts[2] != "int" {
+				fail(x, "%%s_%%d applied to %s and %s", ts[1], ts[2])
+			}
+			return "(Go.chunkName " + as[1] + " " + as[2] + ")", "str"
+		}
 		pieces := strings.Split(f, "%s")
 		if strings.Contains(strings.Join(pieces, ""), "%") || len(pieces) != len(x.Args) {
 			fail(x, "format with verbs other than %%s, or a wrong number of arguments")
@@ -974,6 +1049,9 @@ func (c *ctx) recvStmt(call *ast.CallExpr, k func() string) (string, bool) {
 						if i < len(g.paramTypes) && g.paramTypes[i] == "any" && ts[i] != "any" {
 							as[i] = anyWrap(as[i], ts[i])
 						}
+						if i < len(g.paramTypes) && g.paramTypes[i] == "rwp" && ts[i] == "nil" {
+							as[i] = "false"
+						}
 					}
 					parts = append(parts, as...)
 					callS := "(" + strings.Join(parts, " ") + ")"
@@ -1103,7 +1181,7 @@ func leanName(key string) string { return strings.Replace(key, ".", "_", 1) }
 
 // methodOf finds the translated method `name` of the Go type behind a type tag
 func methodOf(tag, name string) *fn {
-	goT := map[string]string{"inst": "TraefikOidc", "jwt": "JWT", "cache": "Cache", "tcache": "TokenCache", "mcache": "MetadataCache"}[tag]
+	goT := map[string]string{"inst": "TraefikOidc", "jwt": "JWT", "cache": "Cache", "tcache": "TokenCache", "mcache": "MetadataCache", "sdata": "SessionData"}[tag]
 	if goT == "" {
 		return nil
 	}
@@ -1180,6 +1258,47 @@ func (c *ctx) assign(s *ast.AssignStmt, k func() string) string {
 	if s.Tok != token.DEFINE && s.Tok != token.ASSIGN {
 		fail(s, "unsupported assignment operator")
 	}
+	if _, rt, _ := c.lookup(c.recv); c.f.recvMut && rt == "sdata" && len(s.Lhs) == 1 && len(s.Rhs) == 1 && s.Tok == token.ASSIGN {
+		r := c.recv
+		switch l := s.Lhs[0].(type) {
+		case *ast.SelectorExpr:
+			if src(l.X) == r && (l.Sel.Name == "accessTokenChunks" || l.Sel.Name == "refreshTokenChunks") { // sd.accessTokenChunks = make(…)
+				v, vt := c.expr(s.Rhs[0])
+				if vt != "imap" {
+					fail(s, "assignment of a %s to %s", vt, src(l))
+				}
+				return c.takePre() + fmt.Sprintf("let %s := { %s with %s := %s }\n%s", r, r, l.Sel.Name, v, k())
+			}
+			if px, pt, ok := c.tryExpr(l.X); ok && pt == "gsessp" && l.Sel.Name == "Values" { // session.Values = make(map[interface{}]interface{})
+				if call, ok := s.Rhs[0].(*ast.CallExpr); ok && src(call.Fun) == "make" && len(call.Args) == 1 && src(call.Args[0]) == "map[interface{}]interface{}" {
+					return fmt.Sprintf("let %s := Go.sessClearValues %s %s\n%s", r, r, px, k())
+				}
+				fail(s, "assignment to the values of a session")
+			}
+			if inner, ok := l.X.(*ast.SelectorExpr); ok && inner.Sel.Name == "Options" && l.Sel.Name == "MaxAge" { // session.Options.MaxAge = -1
+				if px, pt, ok := c.tryExpr(inner.X); ok && pt == "gsessp" {
+					v, vt := c.expr(s.Rhs[0])
+					if vt != "int" {
+						fail(s, "MaxAge set to a %s", vt)
+					}
+					return fmt.Sprintf("let %s := Go.sessSetMaxAge %s %s %s\n%s", r, r, px, v, k())
+				}
+			}
+		case *ast.IndexExpr:
+			m, mt := c.expr(l.X)
+			key, _ := c.expr(l.Index)
+			v, vt := c.expr(s.Rhs[0])
+			switch mt {
+			case "gvals": // session.Values["token"] = compressed
+				return c.takePre() + fmt.Sprintf("let %s := Go.sessSetVal %s %s %s %s\n%s", r, r, m, key, anyWrap(v, vt), k())
+			case "imap": // sd.accessTokenChunks[i] = session
+				if sel, ok := l.X.(*ast.SelectorExpr); ok && src(sel.X) == r && vt == "gsessp" {
+					return fmt.Sprintf("let %s := { %s with %s := Go.imapSet %s %s %s }\n%s", r, r, sel.Sel.Name, m, key, v, k())
+				}
+			}
+			fail(s, "assignment to an element of a %s", mt)
+		}
+	}
 	if c.f.recvMut && len(s.Lhs) == 1 && len(s.Rhs) == 1 && s.Tok == token.ASSIGN {
 		if sel, ok := s.Lhs[0].(*ast.SelectorExpr); ok && src(sel.X) == c.recv {
 			if _, rt, _ := c.lookup(c.recv); rt == "mcache" && (sel.Sel.Name == "metadata" || sel.Sel.Name == "expiresAt") {
@@ -1220,6 +1339,26 @@ func (c *ctx) assign(s *ast.AssignStmt, k func() string) string {
 			return fmt.Sprintf("let (%s, %s) := Go.listPushBack %s.order %s\nlet %s := { %s with order := %s }\n%s", e, l, r, v, r, r, l, k())
 		}
 	}
+	if len(s.Lhs) == 1 && len(s.Rhs) == 1 {
+		if call, ok := s.Rhs[0].(*ast.CallExpr); ok {
+			if id, ok := call.Fun.(*ast.Ident); ok {
+				if g := byName[id.Name]; g != nil && g.fuel && !g.stateful && !g.recvMut && len(g.retTypes) == 1 {
+					c.f.calls = append(c.f.calls, g.key)
+					c.f.fuel = true
+					as, _ := c.args(call)
+					parts := []string{leanName(g.key), "fuel"}
+					if g.needsNow {
+						c.f.needsNow = true
+						parts = append(parts, "now")
+					}
+					parts = append(parts, as...)
+					a := bind(s.Lhs[0], g.retTypes[0])
+					hp := c.takePre()
+					return hp + fmt.Sprintf("match (%s) with\n| none => none\n| some %s =>\n%s", strings.Join(parts, " "), a, indent(k()))
+				}
+			}
+		}
+	}
 	if len(s.Lhs) == 2 && len(s.Rhs) == 1 {
 		switch r := s.Rhs[0].(type) {
 		case *ast.TypeAssertExpr:
@@ -1252,6 +1391,18 @@ func (c *ctx) assign(s *ast.AssignStmt, k func() string) string {
 						return fmt.Sprintf("let ((%s, %s), %s) := (%s)\n%s", a, b, c.recv, strings.Join(parts, " "), k())
 					}
 				}
+			}
+			if _, rt, _ := c.lookup(c.recv); rt == "sdata" && fun == c.recv+".manager.store.Get" && len(r.Args) == 2 && src(r.Args[0]) == c.recv+".request" {
+				// the registry's session of that name (created from the request's cookie on first use)
+				if !c.f.recvMut {
+					fail(r, "store.Get in a method that does not change the session data")
+				}
+				nm, nt := c.expr(r.Args[1])
+				if nt != "str" {
+					fail(r, "session name of type %s", nt)
+				}
+				a, b := bind(s.Lhs[0], "gsessp"), bind(s.Lhs[1], "error")
+				return fmt.Sprintf("let ((%s, %s), %s) := Go.storeGet %s %s\n%s", a, b, c.recv, c.recv, nm, k())
 			}
 			if id, ok := r.Fun.(*ast.Ident); ok {
 				if g := byName[id.Name]; g != nil && g.stateful && g.fuel && len(g.retTypes) == 2 && clocked[c.f.key] && clocked[g.key] {
@@ -1323,6 +1474,9 @@ func (c *ctx) assign(s *ast.AssignStmt, k func() string) string {
 			case "emap":
 				a, ok := bind(s.Lhs[0], "elemp"), bind(s.Lhs[1], "bool")
 				return fmt.Sprintf("let (%s, %s) := Go.emapGet %s %s\n%s", a, ok, m, key, k())
+			case "imap":
+				a, ok := bind(s.Lhs[0], "gsessp"), bind(s.Lhs[1], "bool")
+				return fmt.Sprintf("let (%s, %s) := Go.imapGet %s %s\n%s", a, ok, m, key, k())
 			case "obj":
 				a, ok := bind(s.Lhs[0], "any"), bind(s.Lhs[1], "bool")
 				return fmt.Sprintf("let (%s, %s) := Go.mapGet2 %s %s\n%s", a, ok, m, key, k())
@@ -1651,8 +1805,8 @@ func (c *ctx) stmt(s ast.Stmt, k func() string) string {
 		c.pop()
 		return out.String()
 	case *ast.ForStmt:
-		if x.Cond == nil {
-			fail(x, "unsupported for form")
+		if x.Cond == nil { // for init; ; post { … break … }
+			x = &ast.ForStmt{For: x.For, Init: x.Init, Cond: &ast.Ident{NamePos: x.For, Name: "true"}, Post: x.Post, Body: x.Body}
 		}
 		if x.Init != nil { // for i := 0; cond; post { body }  =  { i := 0; for cond { body; post } }
 			c.push()
@@ -1708,7 +1862,10 @@ func (c *ctx) stmt(s ast.Stmt, k func() string) string {
 			elemT = map[string]string{"anys": "any", "strs": "str", "jwklist": "jwk"}[t]
 			if x.Key != nil {
 				if id, ok := x.Key.(*ast.Ident); !ok || id.Name != "_" {
-					fail(x, "range with an index variable")
+					if t != "strs" || x.Value == nil {
+						fail(x, "range with an index variable")
+					}
+					elemT = "ipair"
 				}
 			}
 			varExpr = x.Value
@@ -1733,7 +1890,10 @@ func (c *ctx) stmt(s ast.Stmt, k func() string) string {
 			v = varExpr.(*ast.Ident).Name
 		}
 		var lv string
-		if elemT == "cpair" { // for key, item := range c.items
+		if elemT == "ipair" { // for i, chunk := range chunks
+			xs = "(Go.enum " + xs + ")"
+			lv = "(" + c.declare(x.Key.(*ast.Ident).Name, "int") + ", " + c.declare(x.Value.(*ast.Ident).Name, "str") + ")"
+		} else if elemT == "cpair" { // for key, item := range c.items
 			kn, vn := "_", "_"
 			if x.Key != nil {
 				kn = x.Key.(*ast.Ident).Name
@@ -1791,6 +1951,9 @@ func (f *fn) translate() (code string, err string) {
 	if f.decl.Recv != nil {
 		r := f.decl.Recv.List[0]
 		t := goType(r.Type)
+		if t == "sess" && strings.HasPrefix(f.key, "SessionData.") && want[f.key] {
+			t = "sdata"
+		}
 		c.recv = c.declare(r.Names[0].Name, t)
 		params = append(params, fmt.Sprintf("(%s : %s)", c.recv, leanType(t)))
 		if t == "cache" || t == "tcache" || recvMutMethods[f.key] {
@@ -1867,7 +2030,6 @@ func main() {
 	repo, outp := os.Args[1], os.Args[2]
 	files, _ := filepath.Glob(filepath.Join(repo, "*.go"))
 	sort.Strings(files)
-	want := map[string]bool{}
 	for _, t := range targets {
 		want[t] = true
 	}
